@@ -125,6 +125,29 @@ def run(ctx):
     ctx.decide(ok, "C14.config", sp.ident, loc_of(sp, assigns[0] if assigns else W), "sampler_type is updated to the requested sampler before the configuration is written",
                "the sampler type recorded for the configuration is not (yet) the sampler that was built for this run when the configuration is written: "
                "the file names another sampler than the one whose checkpoint it holds", disc="type")
+    # ---- a sampler that cannot checkpoint: sample_posterior must not swap /flow and /aspire_config under a checkpoint it will not replace
+    sup_ifs = [n for n in walk_no_nested(sp.node) if isinstance(n, ast.If) and n.lineno < S.lineno
+               and {"checkpoint_file_path", "checkpoint_every"} & {x.value for x in ast.walk(n.test) if isinstance(x, ast.Constant) and isinstance(x.value, str)}
+               and any(isinstance(x, ast.Call) and getattr(x.func, "id", getattr(x.func, "attr", None)) in ("signature", "issubset", "getfullargspec") for x in ast.walk(n.test))]
+    if not sup_ifs:
+        ctx.unknown("C14.nocp", sp.ident, loc_of(sp), "no test of the sampler's checkpoint support found before the pre-sampling write", disc="unsupported")
+    else:
+        si = sup_ifs[0]
+        t_ = si.test
+        neg_ = False
+        while isinstance(t_, ast.UnaryOp) and isinstance(t_.op, ast.Not):
+            t_, neg_ = t_.operand, not neg_
+        unsupported, supported = (si.body, si.orelse) if neg_ else (si.orelse, si.body)
+        in_supported = any(W is x for b in supported for x in ast.walk(b))
+
+        def drops_checkpoint(stmts):
+            return any(isinstance(d, ast.Delete) and any(isinstance(t, ast.Subscript) and isinstance(t.slice, ast.Constant) and t.slice.value == "checkpoint" for t in d.targets)
+                       for b in stmts for d in ast.walk(b))
+        ctx.decide(in_supported or drops_checkpoint(unsupported) or drops_checkpoint([W]), "C14.nocp", sp.ident, loc_of(sp, W),
+                   "the pre-sampling rewrite of /flow and /aspire_config happens only for samplers that go on to write their own checkpoint (or the old checkpoint is removed)",
+                   "for a sampler without checkpoint support (the branch that only warns) the block still replaces /flow and /aspire_config while /checkpoint is left in place: "
+                   "the file then pairs the new flow and a configuration naming that sampler with the particles an earlier SMC run weighted under the previous flow", disc="unsupported")
+
     from ..report import reuse
     from . import c19
     # ---- fit(): the flow stored in the file is replaced only when the caller asks (overwrite), and a replacement must not
